@@ -88,15 +88,20 @@ func shapeOf(st *gkvlite.Store, c *gkvlite.Collection) string {
 type refCounter struct {
 	mu       sync.Mutex
 	cnt      map[*gkvlite.Item]int
+	pool     map[*gkvlite.Item]bool // items handed out by ItemAlloc: the application's pool owns them
+	poisoned int
 	events   int
 	negative []string
 }
 
-func newRefCounter() *refCounter { return &refCounter{cnt: map[*gkvlite.Item]int{}} }
+func newRefCounter() *refCounter {
+	return &refCounter{cnt: map[*gkvlite.Item]int{}, pool: map[*gkvlite.Item]bool{}}
+}
 
 func (r *refCounter) alloc(i *gkvlite.Item) {
 	r.mu.Lock()
 	r.cnt[i] = 1
+	r.pool[i] = true
 	r.events++
 	r.mu.Unlock()
 }
@@ -119,6 +124,19 @@ func (r *refCounter) dec(i *gkvlite.Item) {
 	r.events++
 	if r.cnt[i] < 0 {
 		r.negative = append(r.negative, fmt.Sprintf("key=%x count=%d", i.Key, r.cnt[i]))
+	}
+	if r.cnt[i] == 0 && r.pool[i] {
+		// A recycling allocator (tools/slab is one) reuses the item and its buffers from here on.
+		// Nobody may look at it any more (C15: whatever gkvlite still reaches or hands out has a
+		// positive count), so scribbling over it is behaviourally neutral (C17).
+		for k := range i.Key {
+			i.Key[k] = 0xEE
+		}
+		for k := range i.Val {
+			i.Val[k] = 0xEE
+		}
+		i.Priority = 0x6EEEEEEE
+		r.poisoned++
 	}
 	r.mu.Unlock()
 }
